@@ -41,7 +41,7 @@ def run(res):
     obsfam.run_groups(res, groups, timeout=90, what="C21 independence of stride / padding / caller buffer reuse", known_key_fn=known)
     if res.tier == "thorough":
         g2 = [(k + "#asan", [dict(c) for c in cs[:8]]) for k, cs in groups[:2]]
-        obsfam.run_groups(res, g2, timeout=300, variant="asan", what="C21 under ASan (caller frees its buffers after every send)", known_key_fn=known)
+        obsfam.run_groups(res, g2, timeout=300, variant="san", what="C21 under ASan (caller frees its buffers after every send)", known_key_fn=known)
     r = vlib.tlc("Api", "Api.cfg", timeout=900)
     res.tlc_stats(r)
     res.add("traces_validated_against_impl", 0)
